@@ -45,8 +45,8 @@ func docTree(t *AbsTree) map[string]any {
 type docRel struct {
 	Name   string         `json:"name"`
 	Rw     map[string]any `json:"rw"`
-	Restr  []AbsRestr `json:"restr"`
-	Module string     `json:"module"`
+	Restr  []AbsRestr     `json:"restr"`
+	Module string         `json:"module"`
 }
 
 type docType struct {
